@@ -60,6 +60,7 @@ type FuncContract struct {
 	Abstract []string  // abstracted instruction patterns
 	Ghost    []GhostDecl
 	GhostAt  []*GhostAt
+	LocalSpecs map[string]*SpecFunc
 	File     string
 	Line     int
 	// for trusted externals: explicit signature
@@ -79,6 +80,8 @@ type SpecFunc struct {
 	Src    string
 	Uninterp bool
 	Opaque   bool
+	EntryState bool
+	Local    bool
 	Line   int
 }
 
@@ -139,7 +142,7 @@ var clauseKW = map[string]bool{
 	"func": true, "spec": true, "lemma": true, "axiom": true, "trusted": true, "mode": true, "props": true,
 	"requires": true, "ensures": true, "modifies": true, "loop": true, "inline": true,
 	"pure": true, "nullable": true, "may_alias": true, "panics": true, "wraps": true,
-	"decoder": true, "abstract": true, "ghost": true, "terminates": true, "uninterp": true, "at": true, "opaque": true,
+	"decoder": true, "abstract": true, "ghost": true, "terminates": true, "uninterp": true, "at": true, "opaque": true, "def": true,
 }
 
 var reTag = regexp.MustCompile(`^(\w+)\[([A-Z0-9, ]+)\]`)
@@ -265,8 +268,14 @@ func (cs *Contracts) ParseContractFile(path, pkgPath string) error {
 			cs.Specs[pkgPath+"."+sf.Name] = sf
 			cur = nil
 		case "opaque":
+			entry := false
+			if strings.HasPrefix(rest, "entrystate ") {
+				// the body reads memory as it was at function entry
+				entry = true
+				rest = strings.TrimSpace(rest[11:])
+			}
 			if !strings.HasPrefix(rest, "spec func ") {
-				return fail("expected 'opaque spec func'")
+				return fail("expected 'opaque [entrystate] spec func'")
 			}
 			sf, err := parseSpecFunc(strings.TrimSpace(rest[10:]))
 			if err != nil {
@@ -275,6 +284,7 @@ func (cs *Contracts) ParseContractFile(path, pkgPath string) error {
 			sf.Pkg = pkgPath
 			sf.Line = ll.line
 			sf.Opaque = true
+			sf.EntryState = entry
 			cs.Specs[pkgPath+"."+sf.Name] = sf
 			cur = nil
 		case "uninterp":
@@ -415,6 +425,19 @@ func (cs *Contracts) ParseContractFile(path, pkgPath string) error {
 				default:
 					return fail("unknown loop clause %q", sub)
 				}
+			case "def":
+				// function-local spec function: sees the parameters and memory as at function entry; always opaque
+				sf, err := parseSpecFunc(rest)
+				if err != nil {
+					return fail("%v", err)
+				}
+				sf.Pkg = pkgPath
+				sf.Line = ll.line
+				sf.Opaque, sf.EntryState, sf.Local = true, true, true
+				if cur.LocalSpecs == nil {
+					cur.LocalSpecs = map[string]*SpecFunc{}
+				}
+				cur.LocalSpecs[sf.Name] = sf
 			case "inline":
 				cur.Inline = true
 			case "pure":
@@ -448,9 +471,19 @@ func (cs *Contracts) ParseContractFile(path, pkgPath string) error {
 				}
 				cur.Ghost = append(cur.Ghost, g)
 			case "at":
+				if ka := strings.Index(rest, " assert "); ka >= 0 && !strings.Contains(rest[:ka], " ghost ") {
+					e, err := ParseSpec(rest[ka+8:])
+					if err != nil {
+						return fail("%v", err)
+					}
+					ga := &GhostAt{Site: strings.Join(strings.Fields(rest[:ka]), " "), Line: ll.line}
+					ga.Stmts = append(ga.Stmts, GhostStmt{Assert: e, Src: strings.TrimSpace(rest[ka+8:])})
+					cur.GhostAt = append(cur.GhostAt, ga)
+					continue
+				}
 				k := strings.Index(rest, " ghost ")
 				if k < 0 {
-					return fail("expected 'at <site> ghost <stmts>'")
+					return fail("expected 'at <site> ghost <stmts>' or 'at <site> assert <expr>'")
 				}
 				ga := &GhostAt{Site: strings.Join(strings.Fields(rest[:k]), " "), Line: ll.line}
 				for _, s := range strings.Split(rest[k+7:], ";") {
@@ -521,6 +554,7 @@ func topLevelAssign(s string) int {
 }
 
 type GhostStmt struct {
+	Assert SpecExpr // non-nil: an intermediate assertion (proved, then assumed) instead of an assignment
 	Name  string
 	Index SpecExpr
 	Rhs   SpecExpr
